@@ -12,6 +12,7 @@ From Borno Require Import Cli.
 From Borno Require Import EvalInv.
 From Borno Require Import EvalFrame.
 From Borno Require Import HeapLaws.
+From Borno Require Import ScenarioExamples.
 
 (** a[i] reads element i when i is an integer within bounds, and is a runtime error for a negative, fractional, non-numeric or too large index, or a non-array *)
 Theorem C11_index_read_spec :
@@ -159,3 +160,12 @@ Theorem C11_alloc_arr_fresh :
          get_arr l s' = Some vs /\ (forall l' : nat, (l' < l)%nat -> get_arr l' s' = get_arr l' s).
 Proof. exact (@alloc_arr_fresh). Qed.
 Print Assumptions C11_alloc_arr_fresh.
+
+(** aliasing, element write, append on a concrete program, evaluated inside the kernel (transcript = the real interpreter's) *)
+Theorem C11_scenario_array_alias :
+  transcript src_array_alias =
+         Some
+           ([[91; 57; 32; 50; 32; 51; 93]; [91; 57; 32; 50; 32; 51; 93]; [91; 57; 32; 56; 32; 51; 32; 52; 93];
+             [51]], 0).
+Proof. exact (@scenario_array_alias). Qed.
+Print Assumptions C11_scenario_array_alias.
